@@ -114,7 +114,7 @@ def processing_order(F, R):
     h = F.fn(W + 'handle_all_attachments')
     rs = h.calls(r'WaitSet::<.*>::reset_deadline$')
     hd = h.calls(r'WaitSet::<.*>::handle_deadlines$')
-    cb = [s for s in h.sites if s.is_call and re.search(r'FnMut.*::call_mut$', s.callee or '') and 'fn_call' in h.chain(s.args[0])]
+    cb = lib.param_calls(h, 'fn_call', 3)
     dom(R, h, hd, cb, 'handle_deadlines<notification-callbacks', 'missed deadlines are reported before notifications')
     # all resets precede handle_deadlines: handle_deadlines is not reachable back to a reset
     ok = bool(rs) and bool(hd) and h.exists_path(hd[0], rs, []) is None and h.exists_path(None, hd, rs, from_entry=True) is None or (bool(rs) and bool(hd) and h.exists_path(hd[0], rs, []) is None)
@@ -123,7 +123,7 @@ def processing_order(F, R):
     R.ob('DOM', 'DOM::%s::no-reset-after-callback' % fnkey(h), pth is None, 'no reset_deadline is reachable after a notification callback ran', cb[0].where if cb else h.file, h)
     for c in cb:
         t = sym_nstr(sym(h, c.args[1]))
-        R.ob('FLOW', 'FLOW::%s::id-from-triggered-descriptor' % fnkey(h), 'notification' in t and ('triggered_file_descriptors' in t or 'fd' in t or 'next' in t), 'callback id = %s' % t[:160], c.where, h)
+        R.ob('FLOW', 'FLOW::%s::id-from-triggered-descriptor' % fnkey(h), lib.has_origin(h, c.args[1], r'WaitSetAttachmentId::<.*>::notification$|WaitSetAttachmentId::notification$', ('triggered_file_descriptors', 2)), 'callback id = %s' % t[:160], c.where, h)
     hdl = F.fn(W + 'handle_deadlines')
     cl = [c for c in F.closures_of(hdl) if c.calls(r'WaitSetAttachmentId::<.*>::(deadline|tick)$')]
     R.ob('FLOW', 'FLOW::%s::deadline-vs-tick-by-map-presence' % fnkey(hdl), len(cl) == 1 and bool(cl[0].calls(r'::get$')), 'deadline(..) vs tick(..) is chosen by presence in deadline_to_attachment', cl[0].file + ':%s' % cl[0].line if cl else hdl.file, hdl)
